@@ -172,6 +172,8 @@ def gen_note(rng, F, octave_range=(2, 6), force_no_acc=False):
         if F['acc_display'] and rng.random() < 0.25:
             disp = rng.choice(['x', 'X', 'i', 'I', 'j', 'Z', 'y', 'yy', 'Y', 'YY'])
     pre, post = gen_sigs(rng, F)
+    if F.get('no_display_sigs'):
+        post = [s for s in post if s not in ('x', 'X', 'i', 'I', 'j', 'Z', 'y', 'Y')]
     if acc and not disp:
         # the eight alterationDisplay characters directly after an accidental would be read as its display suffix:
         # they are generated only on notes without accidental (C01's quantifier)
@@ -205,7 +207,9 @@ def gen_chord(rng, F):
     if not dur:
         dur, dmeta = '4', {'dur': '4', 'dots': 0, 'grace': ''}
     for _ in range(n):
-        t, m = gen_note(rng, dict(F, grace=False, dotted=False, rational=False, combining_sigs=False))
+        # the notes of a chord share their signifiers after import, so a display-suffix character on one note would land
+        # behind the accidental of another: in chords those eight characters are generated only when no note has an accidental
+        t, m = gen_note(rng, dict(F, grace=False, dotted=False, rational=False, combining_sigs=False, no_display_sigs=F['accidentals']))
         # all chord notes carry the chord's duration
         body = t[len(''.join(m['pre'])) + len(m['dur']):]
         t = ''.join(m['pre']) + dur + body
